@@ -48,17 +48,18 @@ type slot struct {
 
 // world is the generator's bookkeeping; everything consensus-relevant is re-read from replica A.
 type world struct {
-	r     *prng.R
-	tb    *chainx.TB
-	net   *chainx.Net
-	a     *chainx.Node
-	exec  *neotest.Executor
-	val   neotest.Signer
-	toks  map[util.Uint160]string
-	slots [3]*slot
-	nkeys int
-	seq   int
-	spent map[util.Uint160]int64 // fees of the transactions already built for the next block, per payer
+	r        *prng.R
+	tb       *chainx.TB
+	net      *chainx.Net
+	a        *chainx.Node
+	exec     *neotest.Executor
+	val      neotest.Signer
+	toks     map[util.Uint160]string
+	slots    [3]*slot
+	nkeys    int
+	seq      int
+	spent    map[util.Uint160]int64 // fees of the transactions already built for the next block, per payer
+	mgmtToks map[string]bool        // tokens of the contracts whose deployment was attempted in a block
 }
 
 func newWorld(r *prng.R, tb *chainx.TB, net *chainx.Net, a *chainx.Node) *world {
